@@ -55,6 +55,9 @@ pub struct Conn {
     pub fail_write_at: Option<(u64, ErrorKind)>,
     /// Server-side read fails once exactly this many bytes have been read.
     pub fail_read_at: Option<(u64, ErrorKind)>,
+    /// transient faults are reported once (EINTR-like) and the stream then goes on
+    pub read_fault_transient: bool,
+    pub write_fault_transient: bool,
     pub write_fault_fired: bool,
     /// Everything the server ever wrote, for transcript oracles that want it even when the client does not read.
     pub s2c_log: Vec<u8>,
@@ -254,6 +257,8 @@ impl World {
             accepted: false,
             fail_write_at: None,
             fail_read_at: None,
+            read_fault_transient: false,
+            write_fault_transient: false,
             write_fault_fired: false,
             s2c_log: Vec::new(),
             keep_s2c_log: false,
@@ -284,6 +289,8 @@ impl World {
             accepted: true,
             fail_write_at: None,
             fail_read_at: None,
+            read_fault_transient: false,
+            write_fault_transient: false,
             write_fault_fired: false,
             s2c_log: Vec::new(),
             keep_s2c_log: false,
@@ -427,6 +434,9 @@ impl World {
             }
             if let Some((at, kind)) = c.fail_read_at {
                 if c.c2s.total_read >= at {
+                    if c.read_fault_transient {
+                        c.fail_read_at = None;
+                    }
                     self.count("fault.server_read_error");
                     return Poll::Ready(Err(io_err(kind)));
                 }
@@ -482,6 +492,9 @@ impl World {
             if let Some((at, kind)) = c.fail_write_at {
                 if c.s2c.total_written >= at {
                     c.write_fault_fired = true;
+                    if c.write_fault_transient {
+                        c.fail_write_at = None;
+                    }
                     self.count("fault.server_write_error");
                     return Poll::Ready(Err(io_err(kind)));
                 }
